@@ -351,10 +351,10 @@ use std::sync::atomic::{AtomicI32, AtomicU64, Ordering::SeqCst};
 use x86_64::set_general_handler;
 use x86_64::structures::idt::{InterruptStackFrame, InterruptStackFrameValue};
 
-static PIPE_W: AtomicI32 = AtomicI32::new(-1);
+pub(crate) static PIPE_W: AtomicI32 = AtomicI32::new(-1);
 static GH_CALLS: AtomicU64 = AtomicU64::new(0);
 
-fn send(rec: &[u64; 10]) {
+pub(crate) fn send(rec: &[u64; 10]) {
     let fd = PIPE_W.load(SeqCst);
     if fd >= 0 {
         unsafe { libc::write(fd, rec.as_ptr() as *const libc::c_void, 80) };
@@ -513,6 +513,11 @@ fn current_ss() -> u64 {
 
 /// run `f` in a forked child and collect the 80-byte records it sends
 fn in_child(f: impl FnOnce()) -> (Vec<[u64; 10]>, i32) {
+    in_child_mode(0, f)
+}
+
+/// `mode`: the trap mode inside the child (0: every fault is a crash of the code under test)
+pub(crate) fn in_child_mode(mode: u64, f: impl FnOnce()) -> (Vec<[u64; 10]>, i32) {
     let mut fds = [0i32; 2];
     unsafe {
         libc::pipe(fds.as_mut_ptr());
@@ -520,7 +525,7 @@ fn in_child(f: impl FnOnce()) -> (Vec<[u64; 10]>, i32) {
         if pid == 0 {
             libc::close(fds[0]);
             PIPE_W.store(fds[1], SeqCst);
-            crate::trap::MODE.store(0, SeqCst); // faults in the child are crashes of the code under test
+            crate::trap::MODE.store(mode, SeqCst); // faults in the child are crashes of the code under test
             f();
             libc::_exit(0);
         }
@@ -666,7 +671,8 @@ pub fn run_idt13(out: &mut Out, seed: u64, n: u64) {
     for i in 0..24u64 {
         let st = &stacks[(i % 3) as usize];
         let sp = (st.as_ptr() as u64 + (1 << 16) - 128 - 8 * (r.below(32))) & !7;
-        let fl = base_flags | (r.next() & 0x8d5);
+        // arithmetic flags plus NT (bit 14) and ID (bit 21): all of them may be loaded in ring 3
+        let fl = (base_flags & !0x20_4000) | (r.next() & 0x20_48d5);
         let ip = xv_landing as usize as u64;
         let (recs, status) = in_child(|| {
             let f = InterruptStackFrameValue::new(
